@@ -236,6 +236,8 @@ def add_flatten(rnd, spec, info, force=None, ei=0):
         tags.append("split-then-flatten")
     rnd.shuffle(flat_members)
     flat_name = "".join(flat_members)
+    if any(flat_name == r for rs in s.decl.values() for r in rs):
+        return None          # the flattened rank would be named like an existing rank
     parts["(%s)" % ", ".join(flat_members)] = ["flatten()"]
     occ = rnd.random() < 0.6 or force == "flatten-occupancy"
     if occ:
@@ -279,6 +281,8 @@ def add_double_flatten(rnd, spec, info, ei=0):
     if rnd.random() < 0.5:
         parts = dict(reversed(list(parts.items())))
     flats = ["".join(t1), "".join(t2)]
+    if any(f == r for f in flats for rs in s.decl.values() for r in rs):
+        return None
     rnd.shuffle(flats)
     others = [[r] for r in info["ranks"] if r not in four]
     lo = interleave(rnd, others + [[flats[0]], [flats[1]]], True)
